@@ -8,7 +8,7 @@ use pdatastructs::num_traits::{CheckedAdd, NumCast, One, ToPrimitive, Unsigned, 
 use serde_json::{json, Value};
 use std::collections::BTreeMap;
 
-pub const RULE: &str = "random histories of add / add_n (incl. weight 0 and large weights) / merge (with an independently built sketch) / clear on counter types u8,u16,u32,u64,usize and (w,d) incl. w != d, hashers Mix/Sip/Collide/Constant/Identity/Layout; exact HashMap oracle over all touched keys plus never-added probes after every operation; add/add_n return value compared with query_point taken immediately afterwards; single-distinct-key streams must be exact. non-trivial = history with >= 2 distinct keys and >= 1 merge or add_n; distinct = (type, config, op sequence) hashes";
+pub const RULE: &str = "random histories of add / add_n (incl. weight 0 and large weights) / merge (with an independently built sketch) / clear on counter types u8,u16,u32,u64,usize and (w,d) incl. w != d, deep (d > 64) and large (w*d > 2^16) tables, hashers Mix/Sip/Collide/Constant/Identity/Layout; exact HashMap oracle over all touched keys plus never-added probes after every operation; add/add_n return value compared with query_point taken immediately afterwards; single-distinct-key streams must be exact. non-trivial = history with >= 2 distinct keys and >= 1 merge or add_n; distinct = (type, config, op sequence) hashes";
 pub const ASSUMPTIONS: &[&str] = &[
     "total weight is kept <= C::MAX because counter overflow panics are documented behaviour",
 ];
@@ -34,10 +34,14 @@ fn run_type<C>(tname: &str, max: u128, r: &mut FastRng, rep: &mut Report)
 where
     C: CheckedAdd + Clone + One + Ord + Unsigned + Zero + NumCast + ToPrimitive + std::fmt::Debug,
 {
-    let (w, d) = if r.chance(0.5) {
+    let shape = r.below(20);
+    let (w, d) = if shape < 9 {
         (1 + r.below(5) as usize, 1 + r.below(5) as usize)
-    } else {
+    } else if shape < 18 {
         *r.pick(&[(7usize, 3usize), (3, 7), (272, 3), (10, 20), (1, 16), (16, 1), (2, 9), (9, 2)])
+    } else {
+        // deep and large tables (more than 64 rows, more than 2^16 counters, odd shapes)
+        *r.pick(&[(3usize, 70usize), (2, 100), (1, 129), (5, 65), (4096, 20), (20_000, 5), (32_768, 3), (1000, 100), (65_537, 2), (70_001, 1)])
     };
     let bh: CtlBuildHasher = pick_hasher(r);
     let label = format!("cms<{}>(w={},d={},{})", tname, w, d, bh.name());
